@@ -23,6 +23,7 @@ CANARIES = {
     'scan-named-only': ('wn.lmf', """b'''([^\\\\s=]+)\\\\s*=\\\\s*(?:"([^"]*)"|'([^']*)')'''""",
                         """b'''\\\\b(id|version|label)\\\\s*=\\\\s*(?:"([^"]*)"|'([^']*)')'''"""),
     'scan-blocks': ('wn.lmf', "        for m in lex_re.finditer(fh.read()):", "        for m in (mm for blk in iter(lambda: fh.read(65536), b'') for mm in lex_re.finditer(blk)):"),
+    'parse-not-final': ('wn.lmf', "            parser.ParseFile(fh)", "            parser.Parse(fh.read(), False)"),
     'doctype-any-version': ('wn.lmf', "    if doctype_decoded not in _DOCTYPES:\n        raise LMFError('invalid or missing DOCTYPE declaration')\n\n    return _DOCTYPES[doctype_decoded]",
                             "    if 'WN-LMF' not in doctype_decoded:\n        raise LMFError('invalid or missing DOCTYPE declaration')\n\n    return _DOCTYPES.get(doctype_decoded, '1.0')"),
     'load-after-precheck-write': ('wn._add', "    progress.flash(f'Reading {source!s}')\n    resource = lmf.load(source, progress_handler)",
@@ -51,7 +52,8 @@ ASSUMPTIONS = [
 
 DECL = b'<?xml version="1.0" encoding="UTF-8"?>'
 DECLS = [DECL, DECL.replace(b'"', b"'"), DECL + b'  ', DECL + b'\r', b'', b'<?xml version="1.0"?>',
-         DECL.replace(b'UTF-8', b'utf-8'), b' ' + DECL, b'<LexicalResource>']
+         DECL.replace(b'UTF-8', b'utf-8'), b' ' + DECL, b'<LexicalResource>',
+         b'\xef\xbb\xbf' + DECL, b'\xff\xfe' + DECL]
 DOCTYPE = '<!DOCTYPE LexicalResource SYSTEM "http://globalwordnet.github.io/schemas/WN-LMF-{}.dtd">'
 DOCTYPES = [DOCTYPE.format(v).encode() for v in ('1.0', '1.1', '1.2', '1.3')] + [
     DOCTYPE.format('1.1').encode().replace(b'"', b"'"), DOCTYPE.format('1.3').encode() + b' \t',
@@ -101,7 +103,7 @@ def _install_fakes():
 
 def h_header(kd: int, kt: int, nl: int) -> bool:
     """
-    pre: 0 <= kd < 9 and 0 <= kt < 13 and 0 <= nl < 2
+    pre: 0 <= kd < 11 and 0 <= kt < 13 and 0 <= nl < 2
     post: _
     """
     _install_fakes()
@@ -278,6 +280,42 @@ def h_scan(k_id: int, k_label: int, k_ver: int, ext: bool, two: bool, pad: int, 
     return rt.verdict(got == want)
 
 
+def h_truncated(cut: int, kver: int, crlf: bool) -> bool:
+    """
+    pre: 0 <= cut <= 40 and 0 <= kver < 4
+    post: _
+    """
+    # a document cut off after a solver-chosen line (between elements, inside the lexicon, or
+    # just before the final end tag) is not well-formed: load() rejects it; the whole document
+    # loads.  The bytes are concrete, so expat itself runs (natively) here.
+    _install_fakes()
+    version = ['1.0', '1.1', '1.2', '1.3'][kver]
+    lex = docs.lexicon_small(docs.P(), 'T', tag='t', two=True)
+    chunks = [lmf._XMLDECL.decode() + '\n', lmf._DOCTYPE.format(schema=lmf._SCHEMAS[version]) + '\n',
+              '<LexicalResource xmlns:dc="' + lmf._DC_URIS[version] + '">\n']
+    B._SINK[:] = []
+    lmf._dump_lexicon(lex, B._Out(), lmf.version_info(version))
+    for kind, item in list(B._SINK):
+        if kind == 'text':
+            chunks.append(item)
+    chunks.append('</LexicalResource>\n')
+    lines = ''.join(chunks).splitlines(keepends=True)
+    whole = cut >= len(lines)
+    text = ''.join(lines[:cut]) if not whole else ''.join(lines)
+    if crlf:
+        text = text.replace('\n', '\r\n')
+    _FakePath.FILES = {'t.xml': text.encode('utf-8')}
+    rejected = False
+    try:
+        res = lmf.load('t.xml', progress_handler=None)
+    except (lmf.LMFError, UnicodeDecodeError):
+        rejected = True
+    if not whole:
+        return rt.verdict(rejected)
+    return rt.verdict(not rejected and [lx['id'] for lx in res['lexicons']] == ['T']
+                      and len(res['lexicons'][0]['entries']) == 2)
+
+
 def h_add_rejected(k: int, already: bool) -> bool:
     """
     pre: 0 <= k < 3
@@ -348,6 +386,15 @@ OBLIGATIONS = [
                 'attribute ' + repr(OTHERS),
        bounds='documents of 1-3 lexicons written by the real writer (both quote styles, entities, '
               'tabs)'),
+    Ob('truncated-document', 'h_truncated', quick=dict(timeout=200), thorough=dict(timeout=600),
+       canary=[('parse-not-final', 0)],
+       functions=['wn.lmf.load', '_quick_scan', '_read_header', '_make_parser', '_validate',
+                  'wn.lmf._dump_lexicon (to produce the document)'],
+       stubs=['fake file; expat runs natively on the concrete bytes'],
+       symbolic='the line after which the document is cut (0-40, i.e. anywhere up to the whole '
+                'document), LMF version, line ends',
+       bounds='a two-entry lexicon written by the real writer; every proper prefix is rejected, '
+              'the whole document loads'),
     Ob('add-rejects-without-writing', 'h_add_rejected', quick=dict(timeout=120),
        canary=[('load-after-precheck-write', 0)], functions=['wn._add._add_lmf', '_precheck'],
        stubs=['vf.sqlmodel (statement log)', 'lmf.scan_lexicons / lmf.load stubbed: the scan '
